@@ -14,8 +14,9 @@ import (
 
 // Choice is one scheduling decision: goroutine and (for selects with several ready cases) the case.
 type Choice struct {
-	Tid  string
-	Case int // -2: not a select; -1: default branch; >=0: case index
+	Tid   string
+	Case  int  // -2: not a select; -1: default branch; >=0: case index
+	Sleep bool // the goroutine is parked in a sleep: it gave up the processor voluntarily
 }
 
 func (c Choice) String() string { return fmt.Sprintf("%s/%d", c.Tid, c.Case) }
@@ -40,6 +41,7 @@ type gstate struct {
 	done    bool
 	parked  bool
 	started bool
+	sleeping bool
 }
 
 // Strategy picks among enabled choices. prev is the goroutine that ran last ("" at the start).
@@ -145,6 +147,21 @@ func (c *Controller) Yield(point string) {
 	}
 }
 
+// Sleep is a yield by which the goroutine voluntarily gives up the processor (time.Sleep in a poll
+// loop): strategies do not keep running such a goroutine while others are enabled, and switching
+// away from it is not a preemption.
+func (c *Controller) Sleep(point string) {
+	if g := c.self(); g != nil {
+		c.mu.Lock()
+		g.sleeping = true
+		c.mu.Unlock()
+		c.park(g, point, nil, nil, false)
+		c.mu.Lock()
+		g.sleeping = false
+		c.mu.Unlock()
+	}
+}
+
 func (c *Controller) Await(point string, ready func() bool) {
 	if g := c.self(); g != nil {
 		c.park(g, point, ready, nil, false)
@@ -188,19 +205,19 @@ func (c *Controller) enabledChoices() []Choice {
 			any := false
 			for i, r := range g.selRdy() {
 				if r {
-					out = append(out, Choice{g.name, i})
+					out = append(out, Choice{Tid: g.name, Case: i})
 					any = true
 				}
 			}
 			if !any && g.hasDef {
-				out = append(out, Choice{g.name, -1})
+				out = append(out, Choice{Tid: g.name, Case: -1})
 			}
 		case g.ready != nil:
 			if g.ready() {
-				out = append(out, Choice{g.name, -2})
+				out = append(out, Choice{Tid: g.name, Case: -2})
 			}
 		default:
-			out = append(out, Choice{g.name, -2})
+			out = append(out, Choice{Tid: g.name, Case: -2, Sleep: g.sleeping})
 		}
 	}
 	return out
@@ -303,7 +320,15 @@ func (r *Replay) Pick(step int, prev string, en []Choice) int {
 	}
 	if k < 0 {
 		for i, c := range en {
-			if c.Tid == prev {
+			if c.Tid == prev && !c.Sleep {
+				k = i
+				break
+			}
+		}
+	}
+	if k < 0 { // first goroutine that is not sleeping, else anything
+		for i, c := range en {
+			if !c.Sleep {
 				k = i
 				break
 			}
@@ -337,7 +362,7 @@ func (r *Random) Pick(step int, prev string, en []Choice) int {
 	if r.Stickiness > 0 && int(r.next()%100) < r.Stickiness {
 		var same []int
 		for i, c := range en {
-			if c.Tid == prev {
+			if c.Tid == prev && !c.Sleep {
 				same = append(same, i)
 			}
 		}
